@@ -579,7 +579,7 @@ fn is_assignable(n: &str) -> bool {
 fn has_growth_carrier(ss: &[St], in_loop: bool) -> bool {
     ss.iter().any(|s| match s {
         St::Set(_, e, true) if in_loop => ["p0", "p1", "p2", "p3", "s", "i", "g", "x0", "x1", "x2", "x3", "k0", "k1", "k2", "cap"].iter().any(|n| ex_mentions(e, n)),
-        St::SetBlock(_, _, _, true) if in_loop => true,
+        St::SetBlock(_, _, b, true) if in_loop => ["p0", "p1", "p2", "p3", "s", "i", "g", "cap"].iter().any(|n| stmts_mention(b, n)) || has_assignment(b),
         St::SetBlock(_, _, b, _) | St::FilterSection(_, b) => has_growth_carrier(b, in_loop),
         St::If(br, els) => br.iter().any(|(_, bd)| has_growth_carrier(bd, in_loop)) || els.as_ref().is_some_and(|e| has_growth_carrier(e, in_loop)),
         St::For(_, _, _, b, e) => has_growth_carrier(b, true) || has_growth_carrier(e, in_loop),
@@ -965,14 +965,27 @@ impl<'a> Gen<'a> {
                     sc.bind(&name, k);
                 }
                 6 => {
-                    // (block form of set_global only outside loops, for the same reason)
-                    let global = sc.loop_depth == 0 && self.rng.chance(1, 4);
-                    self.count("stmt.set_block");
+                    let global = self.rng.chance(1, 4);
+                    self.count(if global { "stmt.set_global_block" } else { "stmt.set_block" });
                     let name = self.rng.pick(&POOL).to_string();
                     let filters: Vec<String> = (0..self.rng.below(3)).map(|_| self.rng.pick(&["upper", "lower", "trim"]).to_string()).collect();
                     let mut inner = sc.clone();
                     inner.can_break = false;
-                    let body = self.stmts(depth - 1, self.rng.below(3) + 1, &inner);
+                    let body = if global && sc.loop_depth > 0 {
+                        // the block form of set_global inside a loop: its body reads no assignable name
+                        // (otherwise the value can grow exponentially from iteration to iteration)
+                        self.count("stmt.set_global_block_in_loop");
+                        let mut frozen = sc.clone();
+                        frozen.vars.retain(|(n, _)| !is_assignable(n) || (n.starts_with('x') && n.len() == 2));
+                        let e = self.expr(*self.rng.pick(&[K::Int, K::Str, K::Bool]), 1, &frozen);
+                        let mut b2 = vec![self.text(), St::Print(e)];
+                        if sc.loop_depth > 0 && self.rng.chance(1, 2) {
+                            b2.push(St::Print(atom(&format!("x{}", sc.loop_depth - 1))));
+                        }
+                        b2
+                    } else {
+                        self.stmts(depth - 1, self.rng.below(3) + 1, &inner)
+                    };
                     out.push(St::SetBlock(name.clone(), filters, body, global));
                     sc.bind(&name, K::Str);
                 }
@@ -2146,6 +2159,187 @@ fn exhaustive_small(max_nodes: usize) -> Vec<Case> {
 
 
 
+
+// ------------------------------------------------------------------ set / set_global forms x places (directed, every seed)
+
+/// statements of the directed assignment family
+#[derive(Clone, Debug)]
+enum M {
+    T(&'static str),
+    /// `[{{ p | default(value="~") }}]`
+    R,
+    /// the assignment under test (kind and form are parameters of the family)
+    Assign,
+    For(&'static str, &'static str, Vec<M>, Vec<M>),
+    IfEq(&'static str, i64, Vec<M>),
+    Filter(Vec<M>),
+    Inc,
+}
+
+/// source text; `global`: set_global; `form`: 0 = `{% set p = "v" ~ x %}`, 1 = block, 2 = block with `| upper`
+fn m_src(ms: &[M], global: bool, form: u8, out: &mut String) {
+    let kw = if global { "set_global" } else { "set" };
+    for m in ms {
+        match m {
+            M::T(t) => out.push_str(t),
+            M::R => out.push_str("[{{ p | default(value=\"~\") }}]"),
+            M::Assign => match form {
+                0 => out.push_str(&format!("{{% {kw} p = \"v\" ~ x %}}")),
+                1 => out.push_str(&format!("{{% {kw} p %}}v{{{{ x }}}}{{% endset %}}")),
+                _ => out.push_str(&format!("{{% {kw} p | upper %}}v{{{{ x }}}}{{% endset %}}")),
+            },
+            M::For(v, list, body, els) => {
+                out.push_str(&format!("{{% for {v} in {list} %}}"));
+                m_src(body, global, form, out);
+                if !els.is_empty() {
+                    out.push_str("{% else %}");
+                    m_src(els, global, form, out);
+                }
+                out.push_str("{% endfor %}");
+            }
+            M::IfEq(v, n, body) => {
+                out.push_str(&format!("{{% if {v} == {n} %}}"));
+                m_src(body, global, form, out);
+                out.push_str("{% endif %}");
+            }
+            M::Filter(body) => {
+                out.push_str("{% filter upper %}");
+                m_src(body, global, form, out);
+                out.push_str("{% endfilter %}");
+            }
+            M::Inc => out.push_str("{% include \"inc\" %}"),
+        }
+    }
+}
+
+/// Reference scoping, straight from the documentation: names resolve innermost loop first, then
+/// assignments, then the includer, then the context; `set` inside a loop lasts for that iteration,
+/// `set_global` (any form) and `set` outside loops for the rest of the render; an included
+/// template's assignments reach nobody
+struct MState<'a> {
+    loops: Vec<BTreeMap<String, String>>,
+    assigned: BTreeMap<String, String>,
+    parent: Option<&'a MState<'a>>,
+    ctx: &'a BTreeMap<String, String>,
+    lists: &'a BTreeMap<&'static str, Vec<String>>,
+}
+impl MState<'_> {
+    fn get(&self, n: &str) -> Option<String> {
+        for l in self.loops.iter().rev() {
+            if let Some(v) = l.get(n) {
+                return Some(v.clone());
+            }
+        }
+        if let Some(v) = self.assigned.get(n) {
+            return Some(v.clone());
+        }
+        if let Some(v) = self.parent.and_then(|p| p.get(n)) {
+            return Some(v);
+        }
+        self.ctx.get(n).cloned()
+    }
+}
+
+fn m_run(ms: &[M], st: &mut MState, global: bool, form: u8, inc: &[M], out: &mut String) {
+    for m in ms {
+        match m {
+            M::T(t) => out.push_str(t),
+            M::R => out.push_str(&format!("[{}]", st.get("p").unwrap_or_else(|| "~".into()))),
+            M::Assign => {
+                let v = format!("v{}", st.get("x").unwrap_or_default());
+                let v = if form == 2 { v.to_uppercase() } else { v };
+                if global || st.loops.is_empty() {
+                    st.assigned.insert("p".into(), v);
+                } else {
+                    st.loops.last_mut().unwrap().insert("p".into(), v);
+                }
+            }
+            M::For(var, list, body, els) => {
+                let items = st.lists[list].clone();
+                if items.is_empty() {
+                    m_run(els, st, global, form, inc, out);
+                }
+                st.loops.push(BTreeMap::new());
+                for it in items {
+                    // a fresh iteration: the loop variable and nothing else
+                    *st.loops.last_mut().unwrap() = BTreeMap::from([(var.to_string(), it)]);
+                    m_run(body, st, global, form, inc, out);
+                }
+                st.loops.pop();
+            }
+            M::IfEq(v, n, body) => {
+                if st.get(v).as_deref() == Some(&n.to_string()) {
+                    m_run(body, st, global, form, inc, out);
+                }
+            }
+            M::Filter(body) => {
+                let mut o = String::new();
+                m_run(body, st, global, form, inc, &mut o);
+                out.push_str(&o.to_uppercase());
+            }
+            M::Inc => {
+                let mut o = String::new();
+                {
+                    let mut child = MState { loops: vec![], assigned: BTreeMap::new(), parent: Some(&*st), ctx: st.ctx, lists: st.lists };
+                    m_run(inc, &mut child, global, form, &[], &mut o);
+                }
+                out.push_str(&o);
+            }
+        }
+    }
+}
+
+/// {set, set_global} x {expression, block, block | upper} x {top level, for body, nested for, for-else
+/// inside a loop, if inside for, filter section inside for, include inside for} x reads {before the
+/// assignment (= what an earlier iteration left), after it, after the loop(s)} x `p` in the context or not
+fn oracle_set_forms(out: &mut Vec<Check>) {
+    use M::*;
+    let places: Vec<(&str, Vec<M>)> = vec![
+        ("top_level", vec![R, Assign, R, T("|"), For("x", "xs", vec![R], vec![]), R]),
+        ("for_body", vec![For("x", "xs", vec![T("<"), R, Assign, R, T(">")], vec![]), R]),
+        ("nested_for", vec![For("y", "ys", vec![T("{"), R, For("x", "xs", vec![T("<"), R, Assign, R, T(">")], vec![]), R, T("}")], vec![]), R]),
+        ("for_else_in_loop", vec![For("y", "ys", vec![T("{"), R, For("x", "none_", vec![T("never")], vec![Assign, R]), R, T("}")], vec![]), R]),
+        ("for_else_top", vec![For("x", "none_", vec![T("never")], vec![Assign, R]), R]),
+        ("if_in_for", vec![For("x", "xs", vec![T("<"), R, IfEq("x", 1, vec![Assign, R]), R, T(">")], vec![]), R]),
+        ("filter_section_in_for", vec![For("x", "xs", vec![T("<"), R, Filter(vec![T("f"), Assign, R]), R, T(">")], vec![]), R]),
+        ("include_in_for", vec![For("x", "xs", vec![T("<"), R, Inc, R, T(">")], vec![]), R]),
+        ("set_block_in_for", vec![For("x", "xs", vec![T("<"), R, Assign, For("z", "ys", vec![R], vec![]), T(">")], vec![]), R]),
+    ];
+    let inc: Vec<M> = vec![T("("), R, Assign, R, T(")")];
+    let lists: BTreeMap<&'static str, Vec<String>> = BTreeMap::from([("xs", vec!["1".to_string(), "2".to_string(), "3".to_string()]), ("ys", vec!["a".to_string(), "b".to_string()]), ("none_", vec![])]);
+    for (place, prog) in &places {
+        for global in [false, true] {
+            for form in 0..3u8 {
+                for p_in_ctx in [false, true] {
+                    let mut ctxm: BTreeMap<String, String> = BTreeMap::from([("x".to_string(), "0".to_string())]);
+                    let mut ctx = vec![
+                        ("x".to_string(), Value::from(0)),
+                        ("xs".to_string(), Value::from(vec![Value::from(1), Value::from(2), Value::from(3)])),
+                        ("ys".to_string(), Value::from(vec![Value::from("a"), Value::from("b")])),
+                        ("none_".to_string(), Value::from(Vec::<Value>::new())),
+                    ];
+                    if p_in_ctx {
+                        ctxm.insert("p".into(), "C".into());
+                        ctx.push(("p".into(), Value::from("C")));
+                    }
+                    let mut st = MState { loops: vec![], assigned: BTreeMap::new(), parent: None, ctx: &ctxm, lists: &lists };
+                    let mut expected = String::new();
+                    m_run(prog, &mut st, global, form, &inc, &mut expected);
+                    let (mut main_src, mut inc_src) = (String::new(), String::new());
+                    m_src(prog, global, form, &mut main_src);
+                    m_src(&inc, global, form, &mut inc_src);
+                    let _ = place;
+                    out.push(Check {
+                        oracle: "scope.set_forms_by_place",
+                        case: Case { templates: vec![("main".into(), tpl(&main_src)), ("inc".into(), tpl(&inc_src))], ctx, global: vec![], stream: "oracle.set_forms".into() },
+                        expect: Expect::Text(expected),
+                    });
+                }
+            }
+        }
+    }
+}
+
 // ------------------------------------------------------------------ value-level operator matrix (C02)
 
 /// every encoding that can hold the integer (sign, magnitude)
@@ -3222,6 +3416,7 @@ pub fn run(prop: &str) {
             oracle_scoping(&mut rng, &mut fixed);
         }
         oracle_scoping_deep(&mut fixed);
+        oracle_set_forms(&mut fixed);
     }
     if !c04 {
         oracle_type_errors(&mut fixed);
